@@ -669,7 +669,12 @@ def check_qtotal_forms(prog, rep, rule='CHARGE-qtotal'):
                           '(got [%r])' % (key_text(s), name, other, form), s.lineno)
     if len(forms) < 3:
         raise AnalysisError('svd: qtotal_L/qtotal_R completion statements not found')
-    guard = [s for s in ast.walk(f) if isinstance(s, ast.If) and 'qtotal_L + qtotal_R' in unparse(
+    from .normal import inline_temps
+    try:
+        fn = inline_temps(f, keep=('qtotal_L', 'qtotal_R'))   # a named sum is the same test
+    except Exception:
+        fn = f
+    guard = [s for s in ast.walk(fn) if isinstance(s, ast.If) and 'qtotal_L + qtotal_R' in unparse(
         s.test) and any(isinstance(b, ast.Raise) for b in s.body)]
     n_ob += 1
     rep.instance(rule, {'function': 'svd', 'guard': bool(guard)})
